@@ -114,8 +114,9 @@ pub async fn execute_builtin<S: Runtime + 'static>(
             let sigint_fut = pin!(async {
                 loop {
                     let signals = system.wait_for_signals().await;
-                    caught.extend(signals.iter().copied());
-                    if signals.contains(&S::SIGINT) {
+                    let interrupted = signals.contains(&S::SIGINT);
+                    caught.push(signals);
+                    if interrupted {
                         return;
                     }
                 }
@@ -132,8 +133,14 @@ pub async fn execute_builtin<S: Runtime + 'static>(
             }
         };
 
-        for signal in caught {
-            env.traps.catch_signal(signal);
+        // The built-in may have seen some of the lists itself (and run the
+        // traps for them), so we only handle the ones nobody has claimed yet.
+        for signals in caught {
+            if signals.claim() {
+                for signal in signals.iter().copied() {
+                    env.traps.catch_signal(signal);
+                }
+            }
         }
 
         match result {
